@@ -474,12 +474,12 @@ impl Part for Variants {
         let small = (dataset_strategy(22, 8), dataset_strategy(12, 5), raw_select_cfg(depth, true, 5));
         // wide datasets: the left side of a bind join exceeds BIND_JOIN_MIN_CHUNK = 64 rows
         let wide = (
-            (proptest::collection::vec(data_triple(), 90..160), dataset_strategy(0, 10)).prop_map(|(d, mut rest)| {
+            (proptest::collection::vec(data_triple(), 100..420), dataset_strategy(0, 10)).prop_map(|(d, mut rest)| {
                 rest.default = d;
                 rest
             }),
             dataset_strategy(30, 5),
-            raw_select_cfg(0, true, 3),
+            raw_select_cfg(0, true, 2),
         );
         let finish = |(data, data2, raw): (DataSet, DataSet, RawSelect)| {
             let mut q = Builder::new(&data).select(&raw, true);
@@ -492,8 +492,8 @@ impl Part for Variants {
             (data, data2, q)
         };
         let base = prop_oneof![
-            9 => small.prop_map(finish),
-            1 => wide.prop_map(finish),
+            7 => small.prop_map(finish),
+            3 => wide.prop_map(finish),
         ];
         (base, any::<bool>(), proptest::collection::vec(any::<u64>(), 3), proptest::collection::vec(any::<u32>(), 16), proptest::collection::vec(any::<u64>(), tier.pick(8, 40)))
             .prop_map(|((data, data2, query), use_prefix, perm_seeds, adv, assign_seeds)| Case { data, data2, query, use_prefix, perm_seeds, adv, assign_seeds })
@@ -514,7 +514,7 @@ fn main() {
     let mut s = Session::start(
         "C02",
         "exploration",
-        "generated (dataset, join-heavy SELECT * pattern) pairs (BGPs of 2-5 patterns incl. stars and chains, nested in GRAPH/UNION/sub-SELECT/VALUES; 10% wide datasets of 90-160 default triples so bind-join chunking is reachable); \
+        "generated (dataset, join-heavy SELECT * pattern) pairs (BGPs of 2-5 patterns incl. stars and chains, nested in GRAPH/UNION/sub-SELECT/VALUES; 30% wide datasets of 100-420 default triples so bind-join chunking is reachable); \
          per case the public planning pipeline (parse_combined_query -> build_logical_plan_from_group -> Streamertail::with_cached_stats_and_dataset -> find_best_plan -> ExecutionEngine::execute_with_ids_and_dataset) is run as: baseline (source order, fresh stats, chosen plan, 1 thread); \
          3 random permutations of every BGP; empty / stale (gathered from another dataset) / adversarial (every public DatabaseStats field filled with generated values <= 10^6, missing and never-issued ids, disagreeing graph catalog) statistics; \
          every assignment of {bind, hash, nested-loop} to the join nodes of the chosen plan when there are <=3 (else all-bind/all-hash/all-NL + sampled), alternating TableScan<->IndexScan flips; rayon pools of 2,3,8,16 threads; \
